@@ -708,3 +708,30 @@ def desugared(fi: "FuncInfo") -> "FuncInfo":
     node = ast.fix_missing_locations(
         _Enum2Range().visit(copy.deepcopy(fi.node)))
     return dataclasses.replace(fi, node=node)
+
+
+def fold_consts(repo: "Repo", module: "Module", e: ast.AST) -> ast.AST:
+    """A copy of the expression in which every name / attribute that
+    resolves to a module-level numeric or string constant is replaced by
+    that literal (so that rules see `1e10` whether it is written in place
+    or as `_LIMIT`)."""
+    import copy
+
+    class F(ast.NodeTransformer):
+        def _fold(self, n: ast.expr) -> ast.AST:
+            if isinstance(getattr(n, "ctx", None), ast.Load):
+                c = repo.const(module, n)
+                if isinstance(c, (int, float, str)) and not isinstance(
+                        c, bool):
+                    if isinstance(c, (int, float)) and c < 0:
+                        return ast.copy_location(ast.UnaryOp(
+                            op=ast.USub(), operand=ast.Constant(value=-c)), n)
+                    return ast.copy_location(ast.Constant(value=c), n)
+            return self.generic_visit(n)
+
+        def visit_Name(self, n: ast.Name) -> ast.AST:
+            return self._fold(n)
+
+        def visit_Attribute(self, n: ast.Attribute) -> ast.AST:
+            return self._fold(n)
+    return ast.fix_missing_locations(F().visit(copy.deepcopy(e)))
